@@ -1,5 +1,5 @@
 (** Correspondence cases for C19: the implementation's observed behaviour vs. the model. *)
-From NV Require Import Base.Bytes Base.TieBase Codec.Frame Codec.Crc32.
+From NV Require Export Base.Bytes Base.TieBase Codec.Frame Codec.Crc32.
 Open Scope N_scope.
 
 Notation rle := (list (N * N)) (only parsing).
